@@ -351,7 +351,7 @@ func init() {
 		Assumptions: []string{"a block builder is built once and its block is appended only to the token it was created from", "re-using a root Builder after Build is not an operation on a token (not claimed)"},
 		NumCases: func(tier string) int {
 			if tier == "thorough" {
-				return 12000
+				return 50000
 			}
 			return 500
 		},
